@@ -774,6 +774,7 @@ func runC08(r *simkit.R) {
 	gcVerdict := map[int]int{}   // object -> classification of the first removal after the lock's acknowledgement
 	gcDeleteAt := map[int]int{}   // object -> boundary counter of the last physical removal by the expired-objects handling
 	detached := map[int]bool{}    // shard index -> removed from the engine after its evacuation
+	roSince := map[int]int{}      // shard index -> boundary counter since which it has been read-only (by operator switches)
 	nbound := 0
 	tombMaybe := map[int]bool{}   // object -> a tombstone visit of it took effect although it was reported as failed (injected)
 	dupLock := map[int]bool{}     // object -> its lock was acknowledged while another broadcast of the same lock was in flight
@@ -816,10 +817,14 @@ func runC08(r *simkit.R) {
 			// the expired-objects handling removed it physically after the lock was acknowledged
 			// (several shards' GCs may run the handling for the same object at once: a removal
 			// belongs to SOME earlier lock check of that object)
-			switch gcVerdict[x] {
-			case 0:
+			switch v := gcVerdict[x]; {
+			case v != 1 && dupLock[x]:
+				// (the acknowledged duplicate relied on a copy that the first broadcast's rollback
+				// may have deleted again: the handling rightly found no lock)
+				diag = "the lock was acknowledged because a shard already held it while another broadcast of the same lock was still in flight"
+			case v == 0:
 				diag = "the expired-objects handling removed it without any lock check"
-			case 2:
+			case v == 2:
 				diag = "the expired-objects handling removed it although its lock check ran after the lock was acknowledged"
 			default:
 				diag = "the lock was acknowledged between the lock check and the removal by the expired-objects handling"
@@ -842,6 +847,7 @@ func runC08(r *simkit.R) {
 			op := ops[next]
 			next++
 			if op.kind == "evacuate" {
+				op.b0 = nbound
 				att := 0
 				for i := range w.shards {
 					if detached[i] {
@@ -860,10 +866,22 @@ func runC08(r *simkit.R) {
 			if op.kind == "x:detach" {
 				return op.kind, func(*simkit.Task) {
 					// the operator completes the procedure: the evacuated shards are removed from the engine
+					// (only shards that have been read-only since before the evacuation started and
+					// still are: a shard made writable in between may have received objects since)
 					var ids []string
+					var gone []int
 					for _, i := range op.srcs {
+						if since, ok := roSince[i]; !ok || since > op.b0 || !w.modeOf(i).ReadOnly() {
+							continue
+						}
 						ids = append(ids, w.shards[i].id.String())
 						detached[i] = true
+						gone = append(gone, i)
+					}
+					op.srcs = gone
+					if len(ids) == 0 {
+						r.Op("detach skipped: the evacuated shards did not stay read-only")
+						return
 					}
 					w.e.removeShards(ids...)
 					disturbed = true
@@ -1045,6 +1063,15 @@ func runC08(r *simkit.R) {
 					disturbed = true
 					r.Fired("shard mode switch to " + op.m.String())
 					history = append(history, "mode")
+					if op.m.ReadOnly() {
+						if _, ok := roSince[op.sh]; !ok {
+							roSince[op.sh] = nbound
+						}
+					} else {
+						delete(roSince, op.sh)
+					}
+				} else {
+					delete(roSince, op.sh) // (a switch that failed half-way: not the operator's clean procedure)
 				}
 			case "epoch":
 				disturbed = true
@@ -1056,7 +1083,7 @@ func runC08(r *simkit.R) {
 				history = append(history, "evacuate")
 				r.Logf("    evacuated %d", op.n)
 				if op.err == nil && r.Bool(50) {
-					ops = append(ops[:next], append([]*enOp{{kind: "x:detach", srcs: op.srcs}}, ops[next:]...)...)
+					ops = append(ops[:next], append([]*enOp{{kind: "x:detach", srcs: op.srcs, b0: op.b0}}, ops[next:]...)...)
 				}
 			case "get":
 				if l, ok := pendingArm[op.id]; ok && op.err == nil && bytes.Equal(op.val, w.bin(op.id)) && w.ep.CurrentEpoch() <= uint64(w.u.Specs[l].Exp) {
